@@ -73,6 +73,9 @@ func mutateJobs(tier string) []*Job {
 	}
 	for i, t := range frameTemplates(tier) {
 		t = with(t, "period", -(17 + i)) // concrete content
+		if t["sizeopt"] != 0 {
+			t["sizeopt"] = 2 // and a concrete content-size field
+		}
 		if t["n"] > 40 {
 			continue
 		}
@@ -172,6 +175,9 @@ func lifeJobs(tier string) []*Job {
 			continue
 		}
 		for _, trail := range []int{0, 3, 8} {
+			if t["legacy"] != 0 && trail != 0 {
+				continue // a legacy frame has no end mark: bytes after it are part of the stream
+			}
 			jobs = append(jobs, fmk("H_life_r", with(t, "L", L, "trail", trail)))
 		}
 	}
@@ -195,6 +201,11 @@ func creaderJobs(tier string) []*Job {
 		if i%4 == 0 {
 			jobs = append(jobs, fmk("H_creader", with(t, "fail", 1, "rsrc", (i/4)%4, "R", 2)))
 		}
+	}
+	// two-block sources (64 KiB + a little, concrete compressible filler): buffers ending exactly
+	// on a block boundary
+	for _, bc := range []int{0, 1} {
+		jobs = append(jobs, fmk("H_creader", P("n", 65536+300, "period", -200, "bs", 4, "bc", bc, "cc", 1, "sizeopt", 0, "level", 0, "legacy", 0, "deliv", 0, "k", 0, "fail", 0, "rsrc", 0, "R", 2)))
 	}
 	for n := 0; n <= 4; n++ {
 		jobs = append(jobs, fmk("H_creader", P("n", n, "period", 0, "bs", 4, "bc", n%2, "cc", 1, "sizeopt", n%2, "level", 0, "legacy", 0, "deliv", 0, "k", 0, "fail", 0, "rsrc", n%4, "R", R)))
